@@ -176,12 +176,24 @@ def r11_2(ctx):
     ctx.require(call is not None, 'rule-message callback call not found')
     loop = None
     for a in f.ancestors(call):
-        if a['k'] == 'for':
+        if a['k'] in ('for', 'while'):
             loop = a
             break
     ctx.require(loop is not None, 'reporting loop not found')
-    parts = loop.get('parts', [-1] * 4)
-    init, cond, inc = [f.node(p) if p >= 0 else None for p in parts[:3]]
+    if loop['k'] == 'for':
+        parts = loop.get('parts', [-1] * 4)
+        init, cond, inc = [f.node(p) if p >= 0 else None for p in parts[:3]]
+    else:
+        # `while (cond) { ...; idx++; rule++; }`: the steps are the increments that are
+        # statements of the loop body itself (executed once per iteration, no `continue`)
+        ks_ = f.kids(loop)
+        cond = ks_[0] if ks_ else None
+        body_ = ks_[1] if len(ks_) > 1 else None
+        init = None
+        inc = None
+        parts = [-1, cond['i'] if cond is not None else -1, -1, body_['i'] if body_ is not None else -1]
+        ctx.require(body_ is not None and not any(x['k'] == 'continue' for x in f.walk(body_)),
+                    'reporting loop: a while loop with `continue` (the steps may be skipped)')
     where = f.loc(loop)
     msgs = prog.macros_with_prefix('CALLBACK_MSG_')
     M = msgs.get('CALLBACK_MSG_RULE_MATCHING')
@@ -193,8 +205,14 @@ def r11_2(ctx):
     R = canon(f, f.call_args(call)[2])
     inctxt = f.show(inc) if inc is not None else ''
     stepped = []
-    if inc is not None:
-        for x in f.walk(inc):
+    inc_nodes = list(f.walk(inc)) if inc is not None else []
+    if loop['k'] == 'while':
+        body_ = f.kids(loop)[1]
+        tops = f.kids(body_) if body_['k'] == 'compound' else [body_]
+        inc_nodes = [x for t in tops if t['k'] in ('un', 'bin') for x in f.walk(t)]
+        inctxt = '; '.join(f.show(t) for t in tops if t['k'] in ('un', 'bin'))
+    if inc_nodes:
+        for x in inc_nodes:
             if x['k'] == 'un' and x['op'] in ('++', 'post++'):
                 stepped.append(canon(f, f.kid(x, 0)))
             elif x['k'] == 'bin' and x['op'] == '+=' and cu.const_of(cu.strip_casts(f, f.kid(x, 1))) == 1:
@@ -249,7 +267,10 @@ def r11_2(ctx):
     flagM = prog.macro_value('SCAN_FLAGS_REPORT_RULES_MATCHING')
     flagNM = prog.macro_value('SCAN_FLAGS_REPORT_RULES_NOT_MATCHING')
 
+    ct = paths.CondTracker(f)
+
     def step(n, facts):
+        facts = ct.on_step(n, facts)
         if n['k'] == 'decl' and n.get('name') == MSG and n.get('c'):
             v = cu.const_of(f.kid(n, 0))
             return frozenset(x for x in facts if x[0] != 'msg') | {('msg', v)}
@@ -291,12 +312,23 @@ def r11_2(ctx):
         return frozenset(x for x in facts if x[0] != k) | {(k, v)}
 
     def edge(b, term, cond_, idx, succ, facts):
+        facts = ct.on_edge(term, cond_, idx, facts)
+        if facts is None:
+            return None
         pol = paths.branch_polarity(f, term, idx)
         if pol is None or cond_ is None:
             return facts
         c, pol = paths.normalise_cond(f, cond_, pol)
         if c is None:
             return facts
+        if c['k'] == 'ref':
+            # a boolean that stands for the last operand of `A && B`: its truth is B's
+            for x in facts:
+                if isinstance(x, tuple) and len(x) == 3 and x[0] == 'last' and x[1] == c['name']:
+                    c2, pol2 = paths.normalise_cond(f, f.nodes[x[2]], pol)
+                    if c2 is not None:
+                        c, pol = c2, pol2
+                    break
         ms = set(f.macros(c)) | set(m for x in f.walk(c) for m in f.macros(x))
         flds = set(x['fld'] for x in f.walk(c) if x['k'] == 'member')
         if 'rule_matches_flags' in flds and ('yr_bitmask_is_set' in ms or 'yr_bitmask_is_not_set' in ms):
